@@ -831,7 +831,7 @@ func c17(x *Ctx) {
 		})
 		rg := false
 		eng.Instrs(ws, func(in ssa.Instruction) {
-			if ia, ok := in.(*ssa.IndexAddr); ok && loadsField(ia.X, hashesF) && isRangeIndex(ia.Index) {
+			if ia, ok := in.(*ssa.IndexAddr); ok && loadsField(ia.X, hashesF) && (isRangeIndex(ia.Index) || isCountingIndex(ia.Index)) {
 				rg = true
 			}
 		})
